@@ -64,6 +64,46 @@ def run(ts, chunked):
     return seen, want, ds
 
 
+def codec_round_trips():
+    """bounded, native: dsutils.decode(dsutils.encode(ds)) through the REAL pydicom codec and zlib for every transfer-syntax
+    flag combination the library uses and data sets of very different size / compressibility (the deflate branch talks to
+    zlib, an assumed library contract in the proof)"""
+    import random
+    from io import BytesIO
+    from pynetdicom.dsutils import decode
+    rnd = random.Random(7)
+    variants = {"small": lambda d: None,
+                "odd-length values": lambda d: (setattr(d, "PatientName", "A"), setattr(d, "PatientID", "123")),
+                "6 MiB of zeros (deflates about 1000:1)": lambda d: setattr(d, "PixelData", bytes(6 * 1024 * 1024)),
+                "300 KiB of noise (does not deflate)": lambda d: setattr(d, "PixelData", bytes(rnd.getrandbits(8) for _ in range(300 * 1024)))}
+    for ts in (ImplicitVRLittleEndian, ExplicitVRLittleEndian, ExplicitVRBigEndian, DeflatedExplicitVRLittleEndian):
+        for label, edit in variants.items():
+            ds = make_ds(ts)
+            edit(ds)
+            del ds.file_meta
+            flags = (ts.is_implicit_VR, ts.is_little_endian, ts.is_deflated)
+            enc = encode(ds, *flags)
+            if enc is None:
+                return dict(input={"transfer syntax": ts.name, "data set": label}, observed="encode returned None", expected="bytes")
+            try:
+                back = decode(BytesIO(enc), *flags)
+                same = back == ds
+                why = None if same else {k: (len(getattr(back, k, b"")), len(getattr(ds, k))) for k in ("PixelData",) if getattr(back, k, None) != getattr(ds, k)}
+            except Exception as e:
+                same, why = False, repr(e)
+            if not same or len(enc) % 2:
+                return dict(input={"transfer syntax": ts.name, "data set": label}, observed={"decoded equals what was encoded": same, "difference": why,
+                                                                                             "encoded length": len(enc)},
+                            expected="decode(encode(ds)) == ds and an even number of encoded bytes")
+    return None
+
+
+if "bounded-native" in ob or "dsutils" in ob or ob.endswith("cross-check"):
+    _bad = codec_round_trips()
+    if _bad:
+        done(True, **_bad)
+    if "bounded-native" in ob:
+        done(False, note="decode(encode(ds)) == ds on 4 transfer syntaxes x 4 data sets through the real pydicom codec and zlib")
 bad = None
 for ts in (ImplicitVRLittleEndian, ExplicitVRLittleEndian, ExplicitVRBigEndian, DeflatedExplicitVRLittleEndian):
     for chunked in (False, True):
